@@ -157,6 +157,7 @@ bool StepScript(InterpreterEnv& env)
 
         // Update environment
         env.curr_op_seq++;
+        ++env.opcode_pos;
         return true;
     }
 
